@@ -212,6 +212,41 @@ func TestFiveYearBound(t *testing.T) {
 						sec.Sample(func() any { return c() + " -> " + fmtT(got) })
 					}
 				}
+				// The bound counts from the start as the SCHEDULE's zone sees it: with a zone prefix, starts around
+				// New Year presented in locations where it is still (or already) another year.
+				pks, perr, ppv := safeParse(o, "TZ="+z.name+" "+text)
+				prs, prerr := refcron.Parse("TZ="+z.name+" "+text, o.ref)
+				if ppv != nil || perr != nil || prerr != nil {
+					continue
+				}
+				for _, span := range [][2]int{{2002, 2004}, {2095, 2100}} {
+					for y := span[0]; y <= span[1]; y++ {
+						for _, off := range []time.Duration{-26 * time.Hour, -14 * time.Hour, -13 * time.Hour, -time.Hour, -time.Second, 0, time.Second, time.Hour, 13 * time.Hour, 14 * time.Hour, 26 * time.Hour} {
+							for _, pl := range []string{"UTC", "Etc/GMT-14", "Etc/GMT+12", "Asia/Tokyo"} {
+								idx++
+								if !vk.Mine(idx) {
+									continue
+								}
+								at := time.Date(y, 1, 1, 0, 0, 0, 0, zi.loc).Add(off).In(zone(pl).loc)
+								c := func() string {
+									return fmt.Sprintf("{parser=%s expr=%q schedule-zone=%s start=%s presented-in=%s}", o.name, "TZ="+z.name+" "+text, z.name, fmtT(at), pl)
+								}
+								got := guardedNext(pks, at, c)
+								msg, ans := judgeNext(prs, zi.loc, at, got)
+								if msg != "" {
+									t.Fatalf("C04 five-year bound violated: %s\ncase: %s", msg, c())
+								}
+								cls := "bound.newyear-other-location.hit"
+								if !ans.found {
+									cls = "bound.newyear-other-location.none"
+								} else if !ans.must {
+									cls = "bound.newyear-other-location.edge-either"
+								}
+								sec.Case(true, vk.FP(c()), cls)
+							}
+						}
+					}
+				}
 			}
 		}
 	}
